@@ -23,6 +23,7 @@ import (
 	"database/sql/driver"
 	"errors"
 	"fmt"
+	"sync"
 	"time"
 
 	"seata.apache.org/seata-go/pkg/datasource/sql/types"
@@ -61,8 +62,13 @@ type XAConn struct {
 	xaActive           bool
 	rollBacked         bool
 	branchRegisterTime time.Time
-	prepareTime        time.Time
 	isConnKept         bool
+
+	// held: the branches of this connection that are in the resource's keeper, with the time of their prepare
+	// (zero until then). A connection may carry several: on a session whose last branch is PREPARED the next one
+	// may start. The two-phase timeout checker reads it from a goroutine of its own.
+	heldMu sync.Mutex
+	held   map[string]time.Time
 }
 
 func (c *XAConn) PrepareContext(ctx context.Context, query string) (driver.Stmt, error) {
@@ -331,18 +337,73 @@ func (c *XAConn) reportPhaseOneFailed() {
 func (c *XAConn) keepIfNecessary() {
 	if c.ShouldBeHeld() {
 		if err := c.res.Hold(c.xaBranchXid.String(), c); err == nil {
+			c.heldMu.Lock()
+			if c.held == nil {
+				c.held = map[string]time.Time{}
+			}
+			c.held[c.xaBranchXid.String()] = time.Time{}
+			c.heldMu.Unlock()
 			c.isConnKept = true
 		}
 	}
 }
 
+// releaseIfNecessary takes the branch the connection is working on out of the keeper
 func (c *XAConn) releaseIfNecessary() {
-	if c.ShouldBeHeld() && c.xaBranchXid != nil && c.xaBranchXid.String() != "" {
-		if c.isConnKept {
-			c.res.Release(c.xaBranchXid.String())
-			c.isConnKept = false
+	if c.xaBranchXid != nil && c.xaBranchXid.String() != "" {
+		c.release(c.xaBranchXid.String())
+	}
+}
+
+// release takes one branch out of the keeper: the one that was committed or rolled back, which need not be the
+// one the connection is working on now
+func (c *XAConn) release(xaBranchXid string) {
+	if !c.ShouldBeHeld() {
+		return
+	}
+	c.heldMu.Lock()
+	_, mine := c.held[xaBranchXid]
+	delete(c.held, xaBranchXid)
+	left := len(c.held)
+	c.heldMu.Unlock()
+	if mine {
+		c.res.Release(xaBranchXid)
+		c.isConnKept = left > 0
+	}
+}
+
+// releaseAll takes every branch of the connection out of the keeper (the connection is gone)
+func (c *XAConn) releaseAll() {
+	c.heldMu.Lock()
+	held := c.held
+	c.held = nil
+	c.heldMu.Unlock()
+	for xaBranchXid := range held {
+		c.res.Release(xaBranchXid)
+	}
+	c.isConnKept = false
+}
+
+// markPrepared starts the two-phase hold time of a kept branch
+func (c *XAConn) markPrepared(xaBranchXid string) {
+	c.heldMu.Lock()
+	defer c.heldMu.Unlock()
+	if _, ok := c.held[xaBranchXid]; ok {
+		c.held[xaBranchXid] = time.Now()
+	}
+}
+
+// heldLongerThan tells whether a PREPARED branch of the connection has been waiting for phase two for longer
+// than hold. A branch that is not prepared yet is the application's business, however long it takes.
+func (c *XAConn) heldLongerThan(hold time.Duration) bool {
+	c.heldMu.Lock()
+	defer c.heldMu.Unlock()
+	for _, preparedAt := range c.held {
+		if !preparedAt.IsZero() && time.Since(preparedAt) > hold {
+			return true
 		}
 	}
+	return false
 }
 
 func (c *XAConn) start(ctx context.Context) error {
@@ -388,7 +449,6 @@ func (c *XAConn) termination(xaBranchXid string) error {
 func (c *XAConn) cleanXABranchContext() {
 	h, _ := time.ParseDuration("-1000h")
 	c.branchRegisterTime = time.Now().Add(h)
-	c.prepareTime = time.Now().Add(h)
 	c.xaActive = false
 	if !c.isConnKept {
 		c.xaBranchXid = nil
@@ -448,10 +508,10 @@ func (c *XAConn) Commit(ctx context.Context) error {
 	if err := c.xaResource.XAPrepare(ctx, c.xaBranchXid.String()); err != nil {
 		return c.commitErrorHandle(ctx, err, true)
 	}
+	// a kept connection is held for phase two from now on (xaTwoPhaseTimeoutChecker counts from here)
+	c.markPrepared(c.xaBranchXid.String())
 	// phase one of this branch is over: the connection must be usable for the next branch
 	c.cleanXABranchContext()
-	// a kept connection is held for phase two from now on (xaTwoPhaseTimeoutChecker counts from here)
-	c.prepareTime = time.Now()
 	return nil
 }
 
@@ -504,14 +564,14 @@ func (c *XAConn) CloseForce() error {
 		return err
 	}
 	c.rollBacked = false
+	c.releaseAll()
 	c.cleanXABranchContext()
-	c.releaseIfNecessary()
 	return nil
 }
 
 func (c *XAConn) XaCommit(ctx context.Context, xaXid XAXid) error {
 	err := c.xaResource.Commit(ctx, xaXid.String(), false)
-	c.releaseIfNecessary()
+	c.release(xaXid.String())
 	return err
 }
 
@@ -521,6 +581,6 @@ func (c *XAConn) XaRollbackByBranchId(ctx context.Context, xaXid XAXid) error {
 
 func (c *XAConn) XaRollback(ctx context.Context, xaXid XAXid) error {
 	err := c.xaResource.Rollback(ctx, xaXid.String())
-	c.releaseIfNecessary()
+	c.release(xaXid.String())
 	return err
 }
